@@ -282,6 +282,44 @@ func checkMain(args []string) {
 		out = append(out, fmt.Sprintf("  failed obligation %s (%s) at %s: %s", o.Name, o.Result, o.Pos, o.Desc))
 		out = append(out, fmt.Sprintf("VIOLATION property=%s replay=%s%s", id, rp, suffix))
 	}
+	// a failed obligation is assumed afterwards (execution continues only if the check held), so
+	// code after it in the same function may be vacuous: that is a consequence, not a broken check
+	failedFn := map[string]bool{}
+	for _, o := range bad {
+		failedFn[o.Fn] = true
+	}
+	// an unreachable return is ordinary dead code (e.g. `if err != nil` after a callee that is proved
+	// to return nil); the check is vacuous only if the precondition is contradictory or NO return of
+	// the function is reachable
+	coverByFn := map[string][2]int{} // fn -> {returns, vacuous returns}
+	for _, rep := range reports {
+		for _, o := range rep.Obligations {
+			if o.Kind == "cover" && strings.Contains(o.Name, "#cover.return") {
+				c := coverByFn[o.Fn]
+				c[0]++
+				if o.Result == "vacuous" {
+					c[1]++
+				}
+				coverByFn[o.Fn] = c
+			}
+		}
+	}
+	var realVacuous []*OblReport
+	var deadReturns []string
+	for _, o := range vacuous {
+		if failedFn[o.Fn] {
+			continue
+		}
+		if strings.Contains(o.Name, "#cover.return") {
+			if c := coverByFn[o.Fn]; c[1] < c[0] {
+				deadReturns = append(deadReturns, o.Name+" ("+o.Pos+")")
+				continue
+			}
+		}
+		realVacuous = append(realVacuous, o)
+	}
+	vacuous = realVacuous
+	cov["unreachable_returns"] = deadReturns
 	for _, o := range vacuous {
 		out = append(out, fmt.Sprintf("CHECK-BROKEN: vacuous assumptions at %s (%s)", o.Name, o.Pos))
 	}
